@@ -866,3 +866,149 @@ pub fn pke_unseal_arbitrary<V: PkeUnsealingVersion, const N: usize>(sk: <V as Ha
     kani::cover!(r.is_err());
     core::mem::forget(r);
 }
+
+// ================================================================================================
+// C08: key codecs;  C13: key-id transcript
+// ================================================================================================
+/// local keys: exactly 32 bytes are accepted; encode(decode(b)) == b; clone encodes identically
+pub fn local_key_codec<V: HasKey<Local>, const N: usize>()
+where
+    <V as HasKey<Local>>::Key: Clone,
+{
+    let b: [u8; N] = kani::any();
+    let r = <V as HasKey<Local>>::decode(&b);
+    assert!(r.is_ok() == (N == 32), "local key length is not enforced to be exactly 32");
+    if let Some(k) = forget(r) {
+        let e = <V as HasKey<Local>>::encode(&k);
+        assert!(eq(&e, &b), "encode(decode(bytes)) differs from bytes");
+        let e2 = <V as HasKey<Local>>::encode(&k.clone());
+        assert!(eq(&e2, &b), "a cloned key encodes differently");
+        core::mem::forget((e, e2));
+    }
+    kani::cover!(true);
+}
+
+/// generated signing keys: public/secret encodings have the prescribed lengths, survive
+/// decode -> encode unchanged, clones encode identically, and (when the secret encoding embeds the
+/// public key: `pub_in_secret_at`) that half equals the derived public key
+pub fn signing_key_codec<V: SealingVersion<Public> + HasKey<Secret>>(pub_len: usize, sec_len: usize, pub_in_secret_at: Option<usize>)
+where
+    <V as HasKey<Public>>::Key: Clone,
+    <V as HasKey<Secret>>::Key: Clone,
+{
+    let sk = match forget(<V as SealingVersion<Public>>::random()) {
+        Some(k) => k,
+        None => {
+            kani::assume(false);
+            unreachable!()
+        }
+    };
+    let pk = <V as SealingVersion<Public>>::unsealing_key(&sk);
+    let ep = <V as HasKey<Public>>::encode(&pk);
+    let es = <V as HasKey<Secret>>::encode(&sk);
+    assert!(ep.len() == pub_len, "public key encoding has the wrong length");
+    assert!(es.len() == sec_len, "secret key encoding has the wrong length");
+    match forget(<V as HasKey<Public>>::decode(&ep)) {
+        Some(p2) => {
+            let e2 = <V as HasKey<Public>>::encode(&p2);
+            assert!(eq(&e2, &ep), "public key changes across serialisation");
+            let e3 = <V as HasKey<Public>>::encode(&p2.clone());
+            assert!(eq(&e3, &ep), "cloned public key encodes differently");
+            core::mem::forget((e2, e3));
+        }
+        None => assert!(false, "the library rejects its own public key encoding"),
+    }
+    match forget(<V as HasKey<Secret>>::decode(&es)) {
+        Some(s2) => {
+            let e2 = <V as HasKey<Secret>>::encode(&s2);
+            assert!(eq(&e2, &es), "secret key changes across serialisation");
+            let e3 = <V as HasKey<Secret>>::encode(&s2.clone());
+            assert!(eq(&e3, &es), "cloned secret key encodes differently");
+            // the re-parsed secret key derives the same public key
+            let p3 = <V as SealingVersion<Public>>::unsealing_key(&s2);
+            let e4 = <V as HasKey<Public>>::encode(&p3);
+            assert!(eq(&e4, &ep), "re-parsed secret key derives a different public key");
+            core::mem::forget((e2, e3, e4));
+        }
+        None => assert!(false, "the library rejects its own secret key encoding"),
+    }
+    if let Some(at) = pub_in_secret_at {
+        assert!(eq(&es[at..], &ep), "public half of the secret key encoding is not the derived public key");
+    }
+    kani::cover!(true);
+    core::mem::forget((ep, es));
+}
+
+/// byte strings of a wrong length are never accepted as public / secret keys
+pub fn asym_key_wrong_len<V: HasKey<Public> + HasKey<Secret>, const N: usize>(pub_lens: &[usize], sec_lens: &[usize]) {
+    let b: [u8; N] = kani::any();
+    let mut pub_ok = false;
+    let mut i = 0;
+    while i < pub_lens.len() {
+        pub_ok |= pub_lens[i] == N;
+        i += 1;
+    }
+    let mut sec_ok = false;
+    let mut i = 0;
+    while i < sec_lens.len() {
+        sec_ok |= sec_lens[i] == N;
+        i += 1;
+    }
+    let p = <V as HasKey<Public>>::decode(&b);
+    if !pub_ok {
+        assert!(p.is_err(), "a byte string of the wrong length was accepted as a public key");
+    }
+    let s = <V as HasKey<Secret>>::decode(&b);
+    if !sec_ok {
+        assert!(s.is_err(), "a byte string of the wrong length was accepted as a secret key");
+    }
+    kani::cover!(true);
+    core::mem::forget((p, s));
+}
+
+/// C13: hash_key feeds the hash exactly  model_prefix ‖ paserk_header ‖ id_header ‖ key_data  and
+/// the id is the first 33 bytes of the digest
+pub fn id_transcript<V: IdVersion>(dom: u8, model_prefix: &[u8], paserk_header: &[u8], id_header: &'static str) {
+    let data: [u8; 9] = kani::any();
+    let id = V::hash_key(id_header, &data);
+    let q = vmodel::queries();
+    assert!(q >= 1);
+    let e = vmodel::query(q - 1);
+    let mut want = vmodel::Transcript::new();
+    want.absorb(model_prefix);
+    want.absorb(paserk_header);
+    want.absorb(id_header.as_bytes());
+    want.absorb(&data);
+    assert!(e.dom == dom && eq(e.t.bytes(), want.bytes()), "key id is not the digest of paserk header ‖ id header ‖ key text");
+    assert!(eq(&id, &e.out[..33]), "key id is not the first 33 bytes of the digest");
+    kani::cover!(true);
+}
+
+
+/// C04/C08: the empty byte string offered as a key of every kind is rejected without panicking
+pub fn key_decode_empty<V: HasKey<Local> + HasKey<Public> + HasKey<Secret>>() {
+    let e: [u8; 1] = [0];
+    let empty = &e[..0];
+    let a = <V as HasKey<Local>>::decode(empty);
+    let b = <V as HasKey<Public>>::decode(empty);
+    let c = <V as HasKey<Secret>>::decode(empty);
+    assert!(a.is_err() && b.is_err() && c.is_err(), "the empty byte string was accepted as a key");
+    kani::cover!(true);
+    core::mem::forget((a, b, c));
+}
+
+/// C05/C07: PBKW cost parameters.  `valid` is the specification's verdict on the (symbolic) parameter
+/// block; the KDF model is told to stop the path when it is reached (`abort_kdf`), so only the
+/// parameter handling of pw_wrap_key is explored: the KDF is reached iff the parameters are valid.
+pub fn pw_param_domain<V: PwWrapVersion>(header: &'static str, params: V::Params, valid: bool, kdf_calls: fn() -> usize) {
+    let mut v = Vec::with_capacity(4);
+    v.extend_from_slice(&[1, 2, 3, 4]);
+    let before = kdf_calls();
+    let r = V::pw_wrap_key(header, b"pw", &params, v);
+    // every path that comes back here did not reach the KDF (the model aborts paths that do)
+    assert!(kdf_calls() == before);
+    assert!(r.is_err(), "wrap returned Ok without calling the KDF");
+    assert!(!valid, "valid cost parameters were refused");
+    kani::cover!(true, "some parameter block is refused");
+    core::mem::forget(r);
+}
